@@ -12,6 +12,7 @@ import (
 	metav1 "k8s.io/apimachinery/pkg/apis/meta/v1"
 	"k8s.io/apimachinery/pkg/runtime"
 	"k8s.io/apimachinery/pkg/types"
+	"k8s.io/apimachinery/pkg/util/intstr"
 	"k8s.io/klog/v2"
 	"sigs.k8s.io/controller-runtime/pkg/client"
 	"sigs.k8s.io/controller-runtime/pkg/client/fake"
@@ -178,6 +179,44 @@ func (labelPatchEngine) Gen(r *rand.Rand, idx int, tier string) any {
 		in.Filter = "unordered"
 		in.Planned = r.Intn(n + 2)
 		in.Desired = r.Intn(in.Planned + 2)
+	}
+	if chance(r, 30) && n > 0 && len(in.Pods) > 0 && in.RID != "" {
+		// rollback in batches as the partition-style controls set it up: every pod is on the target
+		// revision, some are marked no-need-update, some of those were already labelled by an earlier pass,
+		// planned/desired come from the same formulas as CalculateBatchContext
+		noNeed := 0
+		for i := range in.Pods {
+			p := &in.Pods[i]
+			p.Owner, p.RSTmpl, p.Deleting = "", "", chance(r, 5)
+			p.PTH, p.CRH = "", in.Rev
+			p.NNU, p.RID, p.BID = "", "", ""
+			if chance(r, 50) {
+				p.NNU = in.RID
+				if !p.Deleting {
+					noNeed++
+				}
+				if chance(r, 40) {
+					p.RID, p.BID = in.RID, strconv.Itoa(1+r.Intn(in.Cur+1))
+				}
+			} else if chance(r, 30) {
+				p.RID, p.BID = in.RID, strconv.Itoa(1+r.Intn(in.Cur+1))
+			}
+		}
+		r.Shuffle(len(in.Pods), func(i, j int) { in.Pods[i], in.Pods[j] = in.Pods[j], in.Pods[i] })
+		step := in.Batches[in.Cur].K8s()
+		scale := func(total int) int {
+			v, _ := intstr.GetScaledValueFromIntOrPercent(&step, total, true)
+			if v > total {
+				v = total
+			}
+			if v < 0 {
+				v = 0
+			}
+			return v
+		}
+		in.Filter = "unordered"
+		in.Planned = scale(n)
+		in.Desired = noNeed + scale(maxInt(n-noNeed, 0))
 	}
 	return in
 }
